@@ -63,7 +63,7 @@ let check inp obs =
     { prop_ok = prop; model_eq = eq; nontrivial = List.length pops >= 2; finding = "-"; tags;
       detail = (if prop && eq then "" else
                 Printf.sprintf "rspec=[%s] tspec_ok=%b model=[%s] pmodel=[%s]" r t_ok m p) }
-  | "conc" :: cap :: pre :: progs ->
+  | ("conc" | "concl" | "concg") :: cap :: pre :: progs ->
     let cap = n_of_hex cap in
     let recs = List.map (fun s -> match String.split_on_char '/' s with
         | [tid; c; r; op; res] -> (int_of_string ("0x" ^ tid), n_of_hex c, n_of_hex r, op, res)
@@ -82,17 +82,21 @@ let check inp obs =
         let h = List.map (fun (_, c, r, op, res) ->
             { o_call = c; o_ret = r; o_op = parse_op op;
               o_res = (match parse_res res with Some x -> x | None -> RPanic) }) recs in
-        match lru_lin (n_of_int 300000) cap h with
+        match lru_lin (n_of_int 2000000) cap h with
         | Some true -> (true, "")
-        | Some false -> (false, "history is not linearizable (checker proved complete)")
-        | None -> (false, "linearizability search exhausted its budget")
+        | r ->
+          (match lru_lin_complete (n_of_int 3000000) cap h with
+           | Some true -> (true, "")
+           | Some false -> (false, "history is not linearizable (complete search, proved)")
+           | None -> (false, if r = None then "linearizability search exhausted its budget"
+                             else "no linearization found by the memoized search (complete search exhausted its budget)"))
       end in
     (* how concurrent was it: pairs of calls of different threads overlapping in time *)
     let arr = Array.of_list (List.map (fun (t, c, r, _, _) -> (t, int_of_n c, int_of_n r)) recs) in
     let overlaps = ref 0 in
     Array.iteri (fun i (t1, c1, r1) -> Array.iteri (fun j (t2, c2, r2) ->
         if i < j && t1 <> t2 && c1 < r2 && c2 < r1 then incr overlaps) arr) arr;
-    let tags = Printf.sprintf "conc,threads-%d,%s" (List.length progs)
+    let tags = Printf.sprintf "%s,threads-%d,%s" (List.hd (split_ws inp)) (List.length progs)
         (if !overlaps = 0 then "no-overlap" else if !overlaps < 10 then "overlap-1..9" else "overlap-10+") in
     { prop_ok = verdict; model_eq = progs_ok; nontrivial = !overlaps > 0; finding = "-"; tags;
       detail = (if verdict && progs_ok then "" else why ^ (if progs_ok then "" else " history does not match the programs")) }
